@@ -16,7 +16,7 @@ import (
 func (c *Ctx) astNorm() *nctx {
 	if c.normAst == nil {
 		g := c.G()
-		c.normAst = newNctx(load.AllFuncDecls(g.Pkg("ast")))
+		c.normAst = newNctx(load.AllFuncDecls(g.Pkg("ast"))).withConsts(g.Pkg("ast").Syntax)
 	}
 	return c.normAst
 }
@@ -24,6 +24,12 @@ func (c *Ctx) astNorm() *nctx {
 // includesNames: on path p (events lo..hi) the names of operand text x are put into the container ret:
 // a loop over x.InitialNames() whose body stores ret[<its key>].
 func includesNames(p bpath, lo, hi int, x, ret string) bool {
+	// the library copy of one set into another: maps.Copy(ret, x.InitialNames()), unconditional in the span
+	for i := lo; i < hi; i++ {
+		if p[i].Kind == "call" && p[i].Text == "maps.Copy("+ret+","+x+".InitialNames())" && len(p[lo:i].facts()) == 0 {
+			return true
+		}
+	}
 	for i := lo; i < hi; i++ {
 		if p[i].Kind != "loop" || p[i].Text != "range "+x+".InitialNames()" {
 			continue
